@@ -198,6 +198,11 @@ func (p *Parser) parseComment() ast.Node {
 	if isBlockComment {
 		if !strings.HasSuffix(p.curToken.Literal(), "*/") {
 			log.LogVf("parseComment: block comment not closed: %s", p.curToken.DebugString())
+			if p.l.EOLEOF().Type() == token.EOF { // file mode: the input is complete, it cannot be continued
+				errLine, lineNum := p.ErrorLine(true)
+				p.errors = append(p.errors, fmt.Sprintf("%d: block comment not closed:\n%s", lineNum, errLine))
+				return nil
+			}
 			p.continuationNeeded = true
 			return nil
 		}
